@@ -15,7 +15,7 @@ More == l <= Len(Traces[tid])
 Cse == Data.cases[tid]           \* [n |-> non-empty records, nch |-> channels, frameNos |-> ..., ]
 
 V(x) == IF Len(x) = 0 THEN NoneV ELSE x[1]
-Indices(sel, n) == CASE sel.kind = "slice" -> PySlice(V(sel.a), V(sel.b), V(sel.c), n)
+Indices(sel, n) == CASE sel.kind = "slice" -> PySliceAny(V(sel.a), V(sel.b), V(sel.c), n)
                      [] sel.kind = "all" -> [i \in 1..n |-> i - 1]
                      [] OTHER -> <<>>
 SetOf(s) == {s[i] : i \in 1..Len(s)}
